@@ -14,6 +14,7 @@ import (
 	"io"
 	"net"
 	"sync"
+	"sync/atomic"
 	"time"
 
 	"gitlab.com/yawning/obfs4.git/internal/verifkit/wire"
@@ -103,7 +104,7 @@ type Conn struct {
 	rxMagic  []byte
 	scanning bool
 	buf      []byte // scan buffer, then decrypted leftover
-	peerPad  int
+	peerPad  atomic.Int64 // read by the harness while Read is parked
 }
 
 func filler(key uint64, n int) []byte {
@@ -134,7 +135,8 @@ func Handshake(c net.Conn, p Params) (*Conn, error) {
 	if err != nil {
 		return nil, err
 	}
-	rc := &Conn{Conn: c, p: p, key: k, peerPad: -1}
+	rc := &Conn{Conn: c, p: p, key: k}
+	rc.peerPad.Store(-1)
 	pub := k.Sent
 	if p.SendAlt {
 		pub = k.SentAlt
@@ -177,11 +179,7 @@ func (c *Conn) PeerPub() []byte { return c.peerPub }
 
 // PeerPadding returns the number of bytes the peer sent between its public
 // key and its magic (-1 until the magic has been found).
-func (c *Conn) PeerPadding() int {
-	c.rmu.Lock()
-	defer c.rmu.Unlock()
-	return c.peerPad
-}
+func (c *Conn) PeerPadding() int { return int(c.peerPad.Load()) }
 
 // TxMagic is the magic this party sends (before damage).
 func (c *Conn) TxMagic() []byte {
@@ -238,7 +236,7 @@ func (c *Conn) Read(b []byte) (int, error) {
 			win = win[:MaxPadding+MagicLen]
 		}
 		if i := bytes.Index(win, c.rxMagic); i >= 0 {
-			c.peerPad = i
+			c.peerPad.Store(int64(i))
 			rest := c.buf[i+MagicLen:]
 			pt := make([]byte, len(rest))
 			c.rx.XORKeyStream(pt, rest)
